@@ -1,11 +1,13 @@
 import Driver.Proto
 import Driver.C01
+import Driver.C02
 import Driver.C03
 import Driver.C16
 import Driver.C16Mon
 
 def suites : List (String × Driver.Suite) :=
   Driver.C01.suites ++
+  Driver.C02.suites ++
   Driver.C03.suites ++
   Driver.C16.suites ++
   Driver.C16Mon.suites
